@@ -18,6 +18,8 @@ TRUSTED_BASE = [
     "axioms: none (Print Assumptions below)",
     "correspondence harness: /verif/harness cmd/hv family 'ring' (runs ringbuffer.RingBuffer[int64] from /repo), "
     "vlib/props/c14.py (generators, printing of cases as Coq terms)",
+    "translation tie (when its status is 'proved'): tools/ringtrans (Go AST -> GoMini terms, refuses what it does not know) and "
+    "the sequential semantics coq/GoMini.v gives those terms; coqc run on the generated RingSrc.v + coq/RingSrcProofs.v outside the main build",
     "modelled not verified: sync.Mutex gives mutual exclusion and atomic.AddInt64/LoadInt64 are single steps; "
     "int64 does not overflow; make() zero-fills; n >= 0 and size >= 1 (outside: Go panics / corrupts, not in C14's domain)",
 ]
